@@ -958,6 +958,129 @@ theorem matmulCsrDense_abs (a : CSR R) (b out : Dense R) (s : R)
         Dense.reorder_abs out i j (by rw [hor]; exact hi) (by rw [hoc]; exact hj)]
 end csrDenseThm
 
+/-! ### `matmul_dia_dense_dense` -/
+section diaDenseThm
+variable {R : Type} [CommRing R]
+
+/-- the bounds of the accumulation loop select, for output row `row`, exactly the column `k = row + offset` when it
+exists: the contributions of all stored diagonals add up to row `row` of `L` times the column of `B` -/
+theorem diaRowTerm_sum (L : Dia R) (h : (L.diags.map (·.1)).Nodup) (fast : Bool) (hfast : fast = true → L.rows = L.cols)
+    (row : Nat) (hrow : row < L.rows) (bcol : Nat → R) :
+    (L.diags.map fun d => diaRowTerm L.rows L.cols fast d row bcol).sum
+      = ((List.range L.cols).map fun k => L.abs row k * bcol k).sum := by
+  have hexp : ∀ k : Nat, L.abs row k * bcol k
+      = (L.diags.map fun d => (if ((k : Nat) : Int) = (row : Int) + d.1 then d.2 k * bcol k else 0)).sum := by
+    intro k
+    rw [Dia.abs_eq_sum L h, ← List.sum_map_mul_right]
+    congr 1
+    apply List.map_congr_left
+    intro d _
+    by_cases hd : d.1 = (k : Int) - (row : Int)
+    · have : ((k : Nat) : Int) = (row : Int) + d.1 := by omega
+      rw [if_pos hd, if_pos this]
+    · have : ¬ ((k : Nat) : Int) = (row : Int) + d.1 := by omega
+      rw [if_neg hd, if_neg this, zero_mul]
+  simp only [hexp]
+  rw [sum_comm_list (List.range L.cols) L.diags]
+  congr 1
+  apply List.map_congr_left
+  intro d _
+  rw [sum_range_single L.cols ((row : Int) + d.1) (fun k => d.2 k * bcol k)]
+  unfold diaRowTerm
+  simp only []
+  have hk : max 0 d.1 + ((row : Int) - max 0 (-d.1)) = (row : Int) + d.1 := by omega
+  rw [hk]
+  cases hf : fast
+  · simp only [Bool.false_eq_true, if_false]
+    have hiff : (0 ≤ (row : Int) - max 0 (-d.1) ∧ (row : Int) - max 0 (-d.1) <
+        min (min (L.cols : Int) ((L.rows : Int) + d.1) - max 0 d.1) (min (L.rows : Int) ((L.cols : Int) - d.1) - max 0 (-d.1)))
+        ↔ (0 ≤ (row : Int) + d.1 ∧ (row : Int) + d.1 < L.cols) := by
+      have : (row : Int) < L.rows := by exact_mod_cast hrow
+      omega
+    by_cases hc : 0 ≤ (row : Int) + d.1 ∧ (row : Int) + d.1 < L.cols
+    · rw [if_pos (hiff.mpr hc), if_pos hc]
+    · rw [if_neg (fun h' => hc (hiff.mp h')), if_neg hc]
+  · simp only [if_true]
+    have hsq : (L.rows : Int) = L.cols := by exact_mod_cast hfast hf
+    have hiff : (0 ≤ (row : Int) - max 0 (-d.1) ∧ (row : Int) - max 0 (-d.1) < (L.cols : Int) - (Int.natAbs d.1 : Nat))
+        ↔ (0 ≤ (row : Int) + d.1 ∧ (row : Int) + d.1 < L.cols) := by
+      have : (row : Int) < L.rows := by exact_mod_cast hrow
+      omega
+    by_cases hc : 0 ≤ (row : Int) + d.1 ∧ (row : Int) + d.1 < L.cols
+    · rw [if_pos (hiff.mpr hc), if_pos hc]
+    · rw [if_neg (fun h' => hc (hiff.mp h')), if_neg hc]
+
+theorem diaDenseCore_abs (L : Dia R) (b t : Dense R) (h : (L.diags.map (·.1)).Nodup)
+    (htr : t.rows = L.rows) (htc : t.cols = b.cols) (i j : Nat) (hi : i < L.rows) (hj : j < b.cols) :
+    (diaDenseCore L b t).abs i j = t.abs i j + ((List.range L.cols).map fun k => L.abs i k * b.abs k j).sum := by
+  unfold diaDenseCore
+  have hfast : ((L.rows == L.cols) && !b.fortran && !t.fortran) = true → L.rows = L.cols := by
+    intro hh
+    simp only [Bool.and_eq_true, beq_iff_eq] at hh
+    exact hh.1.1
+  have key := diaRowTerm_sum L h ((L.rows == L.cols) && !b.fortran && !t.fortran) hfast i hi (fun k => b.abs k j)
+  cases ht : t.fortran
+  · simp only [ht] at key
+    simp only [Dense.abs, ht, Bool.false_eq_true, if_false, htc]
+    rw [if_pos (lt_mul_of_lt hi hj), div_of_mul_add hj, mod_of_mul_add hj, foldl_add_eq_sum]
+    simp only [Dense.abs] at key
+    rw [key]
+  · simp only [ht] at key
+    simp only [Dense.abs, ht, if_true, htr]
+    have h1 : i + j * L.rows = j * L.rows + i := Nat.add_comm _ _
+    rw [h1, if_pos (by rw [Nat.mul_comm L.rows b.cols]; exact lt_mul_of_lt hj hi), div_of_mul_add hi, mod_of_mul_add hi,
+      foldl_add_eq_sum]
+    simp only [Dense.abs] at key
+    rw [key]
+end diaDenseThm
+
+section diaDenseFinal
+variable {R : Type} [CommRing R] [DecidableEq R]
+
+theorem zeros_abs (rows cols : Nat) (f : Bool) (i j : Nat) (hi : i < rows) (hj : j < cols) :
+    (Dense.ofFn rows cols f fun _ _ => (0 : R)).abs i j = 0 :=
+  Dense.ofFn_abs rows cols f (fun _ _ => 0) i j hi hj
+
+/-- **`matmul_dia_dense_dense` computes `scale · L · B (+ out)`** for a diagonal-format left operand with distinct stored
+offsets in any order, in all three accumulation branches (square fast track, both Fortran-ordered, mixed orders) and all
+four ways the result is delivered (into `out` directly, added to `out` with a scale, fresh, fresh and scaled). -/
+theorem matmulDiaDense_abs (L : Dia R) (b : Dense R) (s : R) (out : Option (Dense R)) (h : (L.diags.map (·.1)).Nodup)
+    (hout : ∀ o, out = some o → o.rows = L.rows ∧ o.cols = b.cols) (i j : Nat) (hi : i < L.rows) (hj : j < b.cols) :
+    (matmulDiaDense L b s out).abs i j
+      = (match out with | some o => o.abs i j | none => 0) + s * ((List.range L.cols).map fun k => L.abs i k * b.abs k j).sum := by
+  have hz : ∀ f, (diaDenseCore L b (Dense.ofFn L.rows b.cols f fun _ _ => 0)).abs i j
+      = ((List.range L.cols).map fun k => L.abs i k * b.abs k j).sum := by
+    intro f
+    rw [diaDenseCore_abs L b _ h (by simp [Dense.ofFn]) (by simp [Dense.ofFn]) i j hi hj, zeros_abs L.rows b.cols f i j hi hj, zero_add]
+  unfold matmulDiaDense
+  cases out with
+  | some o =>
+    obtain ⟨hor, hoc⟩ := hout o rfl
+    simp only []
+    by_cases hs : s = 1
+    · rw [if_pos hs, hs, one_mul]
+      exact diaDenseCore_abs L b o h hor hoc i j hi hj
+    · rw [if_neg hs]
+      rw [iaddDense_abs o _ s (by unfold diaDenseCore; simp [Dense.ofFn, hor]) (by unfold diaDenseCore; simp [Dense.ofFn, hoc]) i j
+        (by rw [hor]; exact hi) (by rw [hoc]; exact hj), hz]
+  | none =>
+    simp only [zero_add]
+    by_cases hs : s = 1
+    · rw [if_pos hs, hs, one_mul]
+      exact hz _
+    · rw [if_neg hs]
+      have hT := hz b.fortran
+      cases hb : b.fortran
+      · simp only [Dense.abs, diaDenseCore, Dense.ofFn, hb, Bool.false_eq_true, if_false] at hT ⊢
+        rw [if_pos (lt_mul_of_lt hi hj)] at hT ⊢
+        rw [if_pos (lt_mul_of_lt hi hj), hT]
+      · simp only [Dense.abs, diaDenseCore, Dense.ofFn, hb, if_true] at hT ⊢
+        have h1 : i + j * L.rows = j * L.rows + i := Nat.add_comm _ _
+        have hlt : j * L.rows + i < L.rows * b.cols := by rw [Nat.mul_comm L.rows b.cols]; exact lt_mul_of_lt hj hi
+        rw [h1, if_pos hlt] at hT ⊢
+        rw [if_pos hlt, hT]
+end diaDenseFinal
+
 /-- **a specialisation constructed by inserting conversions computes the same operation**: if the
 registered implementation refines `f` on the meanings and every converter preserves the meaning, so
 does the constructed one — for every requested combination of operand and output formats -/
